@@ -31,12 +31,51 @@ fn run(ctx: &mut Ctx) {
         if s.contains('\n') { ctx.nontrivial_str(&s); }
         let case = || Json::obj().set("text", s.as_str());
         let Some(si) = ctx.no_panic("SourceInfo::new", case, || SourceInfo::new(&s)) else { return };
+        if !check_si(ctx, &si, &s, &case) { return; }
+        if s.contains("\r\n") { ctx.count("texts.crlf"); }
+        if s.ends_with('\n') { ctx.count("texts.trailing-newline"); }
+        if s.is_empty() { ctx.count("texts.empty"); }
+        if ctx.want_sample() && s.len() > 8 && s.contains('\n') { ctx.sample(Json::obj().set("text", s.as_str()).set("lines", s.matches('\n').count() + 1)); }
+    });
+    // phase 1: SourceInfo values that were not built by SourceInfo::new: taken from assembled objects, from linked objects (the
+    // linker joins the sources and their line tables) and from objects read back from both file formats
+    let n = ctx.tier.pick(3_000, 200_000);
+    ctx.cases(1, n, |ctx, rng, _| {
+        use lc3_ensemble::asm::encoding::{BinaryFormat, ObjFileFormat, TextFormat};
+        let nfiles = 2 + rng.usize(2);
+        let files = crate::objutil::gen_link_set(rng, nfiles, false);
+        let mut objs = vec![];
+        for f in &files { match crate::asmutil::asm(&f.r.text, true) { Ok(Ok(o)) => objs.push(o), _ => { ctx.count("derived.not-assembled"); return; } } }
+        let trees = crate::objutil::all_trees(nfiles);
+        let t = rng.pick(&trees).clone();
+        let case = || Json::obj().set("sources", Json::Arr(files.iter().map(|f| Json::from(f.r.text.as_str())).collect())).set("link_tree", t.show());
+        let Some(linked) = ctx.no_panic("link", case, || crate::objutil::eval_tree(&t, &objs)) else { return };
+        let mut subjects: Vec<(&str, lc3_ensemble::asm::ObjectFile)> = vec![("assembled", objs[0].clone())];
+        if let Ok(l) = linked {
+            if rng.bool() { if let Some(b) = BinaryFormat::deserialize(&BinaryFormat::serialize(&l)) { subjects.push(("linked+binary-roundtrip", b)); } }
+            else if let Some(b) = TextFormat::deserialize(&TextFormat::serialize(&l)) { subjects.push(("linked+text-roundtrip", b)); }
+            subjects.push(("linked", l));
+        } else { ctx.count("derived.link-failed"); }
+        for (origin, o) in &subjects {
+            let Some(si) = o.symbol_table().and_then(|t| t.source_info()) else { continue };
+            let text = si.source().to_string();
+            ctx.eval();
+            if text.contains('\n') { ctx.nontrivial_str(&text); }
+            let c2 = || case().set("source_info_from", *origin);
+            if !check_si(ctx, si, &text, &c2) { return; }
+            ctx.count(&format!("derived.{origin}"));
+        }
+    });
+}
+
+/// The oracle: every query of `si` against plain string arithmetic over `s` (= si.source()). Returns false after a violation.
+fn check_si(ctx: &mut Ctx, si: &SourceInfo, s: &str, case: &dyn Fn() -> Json) -> bool {
         // reference
         let mut starts = vec![0usize];
         for (i, b) in s.bytes().enumerate() { if b == b'\n' { starts.push(i + 1); } }
         let count = starts.len();
-        if si.count_lines() != count { ctx.violation("count_lines", format!("count_lines = {}, expected {count}", si.count_lines()), case()); return; }
-        if si.source() != s { ctx.violation("source", "source() differs", case()); return; }
+        if si.count_lines() != count { ctx.violation("count_lines", format!("count_lines = {}, expected {count}", si.count_lines()), case()); return false; }
+        if si.source() != s { ctx.violation("source", "source() differs", case()); return false; }
         for line in 0..count + 3 {
             let want = if line < count {
                 let st = starts[line]; let en = if line + 1 < count { starts[line + 1] - 1 } else { s.len() };
@@ -44,11 +83,11 @@ fn run(ctx: &mut Ctx) {
                 let t = seg.trim_end(); let end = st + t.len(); let start = st + (t.len() - t.trim_start().len());
                 Some(start..end)
             } else { None };
-            let Some(got) = ctx.no_panic("line_span", case, || si.line_span(line)) else { return };
-            if got != want { ctx.violation(if line < count { "line_span:in-range" } else { "line_span:past-end" }, format!("line_span({line}) = {got:?}, expected {want:?}"), case()); return; }
-            let Some(got) = ctx.no_panic("read_line", case, || si.read_line(line).map(|x| x.to_string())) else { return };
+            let Some(got) = ctx.no_panic("line_span", case, || si.line_span(line)) else { return false };
+            if got != want { ctx.violation(if line < count { "line_span:in-range" } else { "line_span:past-end" }, format!("line_span({line}) = {got:?}, expected {want:?}"), case()); return false; }
+            let Some(got) = ctx.no_panic("read_line", case, || si.read_line(line).map(|x| x.to_string())) else { return false };
             let wtxt = want.clone().map(|r| s[r].to_string());
-            if got != wtxt { ctx.violation("read_line", format!("read_line({line}) = {got:?}, expected {wtxt:?}"), case()); return; }
+            if got != wtxt { ctx.violation("read_line", format!("read_line({line}) = {got:?}, expected {wtxt:?}"), case()); return false; }
             if want.is_some_and(|r| r.is_empty()) { ctx.count("lines.blank-or-whitespace"); }
             ctx.count("line-queries");
         }
@@ -56,22 +95,18 @@ fn run(ctx: &mut Ctx) {
             let line = if idx <= s.len() { s.as_bytes()[..idx].iter().filter(|b| **b == b'\n').count() } else { count - 1 };
             // an index pointing AT a newline belongs to the line it terminates (the count above already excludes it)
             let want = (line, idx - starts[line]);
-            let Some(got) = ctx.no_panic("get_pos_pair", case, || si.get_pos_pair(idx)) else { return };
+            let Some(got) = ctx.no_panic("get_pos_pair", case, || si.get_pos_pair(idx)) else { return false };
             if got != want {
                 let cls = if idx > s.len() { "past-end" } else if idx == s.len() { "at-end" } else { "inside" };
-                ctx.violation(&format!("get_pos_pair:{cls}"), format!("get_pos_pair({idx}) = {got:?}, expected {want:?} (len {})", s.len()), case()); return;
+                ctx.violation(&format!("get_pos_pair:{cls}"), format!("get_pos_pair({idx}) = {got:?}, expected {want:?} (len {})", s.len()), case()); return false;
             }
             ctx.count(if idx > s.len() { "index-queries.past-end" } else { "index-queries.inside" });
         }
-        if s.contains("\r\n") { ctx.count("texts.crlf"); }
-        if s.ends_with('\n') { ctx.count("texts.trailing-newline"); }
-        if s.is_empty() { ctx.count("texts.empty"); }
-        if ctx.want_sample() && s.len() > 8 && s.contains('\n') { ctx.sample(Json::obj().set("text", s.as_str()).set("lines", count)); }
-    });
+    true
 }
 
 fn guard(m: &Merged, _t: Tier) -> Vec<String> {
     let mut out = vec![];
-    for k in ["line-queries", "index-queries.inside", "index-queries.past-end", "texts.crlf", "texts.trailing-newline", "texts.empty", "lines.blank-or-whitespace"] { need(m, &mut out, k, 100); }
+    for k in ["line-queries", "index-queries.inside", "index-queries.past-end", "texts.crlf", "texts.trailing-newline", "texts.empty", "lines.blank-or-whitespace", "derived.assembled", "derived.linked"] { need(m, &mut out, k, 100); }
     out
 }
